@@ -284,7 +284,8 @@ def r_mag(E):
                 counts["exempt accessor"] = counts.get("exempt accessor", 0) + 1
                 continue
             res.instances += 1
-            recv = sink.value
+            from ..astutil import expanded as _expanded
+            recv = _expanded(sink.value, fn)
             verdict = None
             # 1. receiver in a fixed unit
             u = UN.unit_of(recv, fn, cls)
